@@ -2,6 +2,7 @@
 from __future__ import annotations
 
 from harness import dist as D
+from harness import distmgr as MG
 
 ID = "C02"
 PROPS = "props/C02.v"
@@ -24,8 +25,12 @@ class C02Float(D.FloatStream):
     FINDING_OF = staticmethod(finding_of)
 
 
+class C02Manager(MG.ManagerStream):
+    CLAUSES = ("C02_", "F4_")
+
+
 def streams():
-    return [C02Exact(), C02Float()]
+    return [C02Exact(), C02Float(), C02Manager()]
 
 
 ASSUMPTIONS = [
